@@ -17,12 +17,12 @@ ASSUMPTIONS = ["what fmt and net/http put into error strings is scanned, not pro
                "license keys are longer than 6 characters (keys of at most 4 characters are logged in full by LicenseKey.String by design)",
                "the scan looks for the secret raw, query-escaped and path-escaped"]
 EXPLANATION = "Non-interference theorems for the two sanitisers; the rest of the property is a dynamic scan of everything the real code logs under fault injection."
-TECHNIQUE = "Lean 4 non-interference theorems for LicenseKey.String and the ARGV echo in every spelling + fault-injection scan of the real client stack's logs and process-level scan of the real binary's log"
+TECHNIQUE = "Lean 4 non-interference theorems for LicenseKey.String and the ARGV echo in every spelling + regenerated, pinned inventory of credential-capable log sinks + fault-injection scan of the real client stack's logs and process-level scan of the real binary's log"
 LEVEL_TEXT = ("Proved: the logged key form depends on the key only through its first/last two characters; the echoed argument vector does not "
               "depend on the proxy value for any spelling of the option. Tied to the code by comparing the model's echo with the ARGV lines the real "
               "binary logs, and by scanning every byte the real client stack logs (debug + audit) under injected faults. Partial by nature for "
               "error strings produced by fmt/net/http.")
-LEVEL_NOTE = "Trusted: Lean kernel; the scan's notion of 'appears' (raw and URL-escaped forms); harness TLS endpoint. The call-site inventory of log statements is not yet regenerated (see DESIGN §6 C14)."
+LEVEL_NOTE = "Trusted: Lean kernel; the scan's notion of 'appears' (raw and URL-escaped forms); harness TLS endpoint. The inventory of credential-capable log sinks is regenerated (Gen.LogSites) and pinned by C14_log_sites_tied."
 DESIGN_REF = "DESIGN.md §6 C14"
 
 DAEMON = os.path.join(vlib.BUILD, "daemon-real")
